@@ -96,19 +96,32 @@ def run(ck, fb):
                         domains={'usize': [0, 1, 2, 3, 4]}, all_atoms={'self.len': [0, 1, 2, 3, 4], 'self.index': [0, 1, 2, 3, 4]})
     ck.rule('R14d', 'range refresh: check_node_status and update_nodes call update_process_range after changing status / the node list; '
                     'update_process_range stores get_current_process_range(); a node-list change sends ClusterRefreshProcessRange')
-    for fn in ('check_node_status', 'update_nodes'):
-        b = ck.body(INM + fn, 'R14d')
-        if b:
-            up = b.calls(re.escape(INM + 'update_process_range') + '$')
-            muts = [s.bb for s in util.mut_calls_on_field(b, 'all_nodes', r'BTreeMap::<K, V, A>::(insert|remove|entry)$')]
-            muts += [bb for (o, f, bb, st) in b.field_writes() if f == 'status']
-            ok = bool(up) and bool(muts) and all(cfg.must_pass_before_return(b, m, {s.bb for s in up}) for m in muts)
-            ck.require(ok, 'R14d', '%s:refreshes-range' % fn, b.where(), '%s changes the node list / a status and can return without recomputing the owner range' % fn)
-    cs = fb.bodies.get(INM + 'check_node_status')
-    if cs:
-        st = [(bb, s) for (o, f, bb, s) in cs.field_writes() if f == 'status']
-        up = cs.calls(re.escape(INM + 'update_process_range') + '$')
-        ck.require(bool(st) and bool(up) and all(up[0].bb in cfg.reach_from(cs, [bb]) for bb, _ in st), 'R14d', 'check_node_status:status-then-range', cs.where(), 'a status change is not followed by a range update')
+    def recompute_sites(b):
+        # a direct update_process_range, or a helper of the same impl whose region contains one
+        out = list(b.calls(re.escape(INM + 'update_process_range') + '$'))
+        for s0 in b.sites:
+            t = util._local_target(b, s0)
+            if t is not None and t.name.startswith(INM) and t.name != INM + 'update_process_range' and \
+                    any(x.calls(re.escape(INM + 'update_process_range') + '$') for x in util.region(fb, t, 2)):
+                out.append(s0)
+        return out
+    n_mut = 0
+    for b in sorted([x for x in fb.find('^' + re.escape(INM)) if not x.parent], key=lambda x: x.name):
+        fn = b.name.split('::')[-1]
+        muts = [s0.bb for s0 in util.mut_calls_on_field(b, 'all_nodes', r'BTreeMap::<K, V, A>::(insert|remove|entry)$')]
+        stw = [bb for (o, f, bb, st) in b.field_writes() if f == 'status' and o.endswith('ClusterInnerNode')]
+        if fn in ('new', 'get_this_node') or not (muts or stw):
+            continue
+        n_mut += 1
+        ck.analysed(b)
+        up = recompute_sites(b)
+        ok = bool(up) and all(cfg.must_pass_before_return(b, m, {s0.bb for s0 in up}) for m in muts + stw)
+        ck.require(ok, 'R14d', '%s:refreshes-range' % fn, b.where((muts + stw)[0]),
+                   '%s changes the node list / the liveness status of a node and can return without recomputing the owner range: route_addr counts the '
+                   'node at once (it reads the status), the owner range follows at the next 3 s tick at best - and not at all when an UpdateNodes with '
+                   'the same member list arrives first (cluster {1,2,3}, node 1 times out and answers again: 58 of 300 services have no owner, 92 have two)' % fn,
+                   'range recomputed before returning')
+    ck.floor('R14d', 'methods that change the node list or a status', n_mut, 3)
     ur = ck.body(INM + 'update_process_range', 'R14d')
     if ur:
         gc = ur.calls(re.escape(INM + 'get_current_process_range') + '$')
@@ -136,10 +149,31 @@ def run(ck, fb):
         for s0 in un.calls(re.escape(INM + 'refresh_process_range') + '$'):
             flags = [cfg.describe_operand(un, t0['discr']) for (s_, d_, lab_, t0) in cfg.dominating_edges(un, s0.bb)]
             flags = [d for d in flags if d['k'] == 'multi']
+            range_cmp = any(a[0] == 'call' and re.search(r'::(ne|eq)$', a[1] or '') for a in cfg.guard_atoms(un, s0.bb))
+            if not flags and not range_cmp:
+                # `flag || ranges differ`: no single dominating edge; take the switches whose edge enters the push without another decision
+                preds = un.pred
+                seen_b = set()
+                stack = [s0.bb]
+                while stack:
+                    x = stack.pop()
+                    for (pb, _lab) in preds[x]:
+                        if pb in seen_b:
+                            continue
+                        seen_b.add(pb)
+                        tt = un.blocks[pb]['t']
+                        if tt['k'] == 'switch':
+                            d0 = cfg.describe_operand(un, tt['discr'])
+                            if d0['k'] == 'multi':
+                                flags.append(d0)
+                            elif d0['k'] == 'call' and re.search(r'::(ne|eq)$', cfg.callee_name(d0['term']) or ''):
+                                range_cmp = True
+                        else:
+                            stack.append(pb)
             ok = False
             why = 'the push is not conditional on a membership-change flag'
-            if not flags and any(a[0] == 'call' and re.search(r'::(ne|eq)$', a[1] or '') for a in cfg.guard_atoms(un, s0.bb)):
-                ok = True       # compares the ranges themselves
+            if range_cmp:
+                ok = True       # compares the ranges themselves (alone or as one disjunct)
             for d in flags:
                 defs = un.defs.get(d['l'], [])
                 on_insert = on_delete = False
